@@ -133,6 +133,9 @@ def run_cell(cell, seed):
         feats["eval"] = cell.get("eval", cell["dtype"])
     if what == "lncdf-sweep":
         feats["sign"] = "neg" if cell["lo"] >= (1 << 31) else "pos"
+        feats["lo"] = cell["lo"]
+    if what == "lncdf-lattice":
+        feats["part"] = cell["part"]
     g = util.gen(seed, "c13|" + util.jdump(cell))
     fn = {"gh-poly": run_poly, "num-locs-setting": run_setting, "bernoulli": run_bernoulli, "forward-params": run_forward,
           "likelihood-elp": run_elp, "softmax": run_softmax, "lncdf-boundary": run_lncdf_boundary, "lncdf-tails": run_lncdf_tails,
@@ -650,9 +653,10 @@ def lncdf_check(z, fails, notes, extra_feats=None):
         bad_val = rv > 1.0
         gtol = LNCDF_BOUND * np.abs(gref) + 4 * fi.tiny
         gerr = np.abs(gr - gref)
-        g_nonfinite = ~np.isfinite(gr)
+        # phi/Phi ~ |z| (1 + 1/z^2) exceeds |z|: at the largest finite float the true derivative rounds to +inf
+        g_nonfinite = ~np.isfinite(gr) & ~(np.abs(gref) >= fi.max * (1 - 8 * fi.eps))
         rg = gerr / gtol
-        rg[g_nonfinite] = 0.0
+        rg[~np.isfinite(gr)] = 0.0  # non-finite gradients are reported (or excused at the overflow edge) through g_nonfinite
         g_bad = rg > 1.0
     notes["lncdf_err_above_1.9e-3"] = notes.get("lncdf_err_above_1.9e-3", 0) + int(np.count_nonzero((err > 1.9e-3) & fin & (zd > -1e3)))
     for key, arr, msk in (("val_z>=-1", rv, hi), ("val_z<-1", rv, ~hi), ("grad_z>=-1", rg, hi), ("grad_z<-1", rg, ~hi)):
